@@ -32,6 +32,14 @@ pub fn gen(tier: Tier, rng: &mut Rng) -> Vec<Sx> {
             // a Next is usually followed by a Mark (the engines always do)
             if ops.last().unwrap().at(0).as_u() == 1 && rng.chance(3, 4) { ops.push(Sx::l(vec![Sx::n(2)])); }
         }
+        // a third of the histories: the activations are CREATED in another order than they are added (explicit creation stamps,
+        // a permutation of the ids); "earlier-created first among equals" is about creation, not insertion
+        if rng.chance(1, 3) {
+            let adds: Vec<usize> = (0..ops.len()).filter(|i| ops[*i].at(0).as_u() == 0).collect();
+            let mut stamps: Vec<i64> = adds.iter().map(|i| ops[*i].at(1).as_i() as i64).collect();
+            rng.shuffle(&mut stamps);
+            for (k, i) in adds.iter().enumerate() { let mut l = ops[*i].as_l().to_vec(); l.push(Sx::i(stamps[k])); ops[*i] = Sx::l(l); }
+        }
         v.push(Sx::l(vec![Sx::n(0), Sx::l(ops)]));
     }
     // fire_all of the three engines: rule sets incl. always-true rules without no-loop, extreme priorities
@@ -101,17 +109,25 @@ pub fn run(case: &Sx) -> (Sx, String) {
     let mut ag = AdvancedAgenda::new();
     let mut last: Option<Activation> = None;
     let mut obs = vec![]; let (mut nnext, mut nsome) = (0, 0);
+    // create the activations of the case in the order of their creation stamps (default: the id, i.e. the order of the adds),
+    // each at a strictly later Instant than the one before; the add ops insert them where the history says
+    let stamp = |o: &Sx| -> i128 { if o.as_l().len() > 9 { o.at(9).as_i() } else { o.at(1).as_i() } };
+    let mut adds: Vec<&Sx> = case.at(1).as_l().iter().filter(|o| o.at(0).as_u() == 0).collect();
+    adds.sort_by_key(|o| stamp(o));
+    let mut made: std::collections::HashMap<i128, Activation> = std::collections::HashMap::new();
+    for o in adds {
+        let t0 = std::time::Instant::now(); while std::time::Instant::now() == t0 {}
+        let mut a = Activation::new(format!("n{}", o.at(2).as_i()), o.at(3).as_i() as i32)
+            .with_agenda_group(gname(o.at(5).as_i())).with_no_loop(o.at(6).as_b())
+            .with_lock_on_active(o.at(7).as_b()).with_auto_focus(o.at(8).as_b())
+            .with_condition_count(o.at(1).as_us());          // carries the op id back out
+        if let Some(g) = o.at(4).as_l().first() { a = a.with_activation_group(format!("ag{}", g.as_i())); }
+        made.insert(o.at(1).as_i(), a);
+    }
     for o in case.at(1).as_l() {
         match o.at(0).as_u() {
             0 => {
-                // Instant::now must be strictly later than the previous activation's creation time
-                let t0 = std::time::Instant::now(); while std::time::Instant::now() == t0 {}
-                let mut a = Activation::new(format!("n{}", o.at(2).as_i()), o.at(3).as_i() as i32)
-                    .with_agenda_group(gname(o.at(5).as_i())).with_no_loop(o.at(6).as_b())
-                    .with_lock_on_active(o.at(7).as_b()).with_auto_focus(o.at(8).as_b())
-                    .with_condition_count(o.at(1).as_us());          // carries the op id back out
-                if let Some(g) = o.at(4).as_l().first() { a = a.with_activation_group(format!("ag{}", g.as_i())); }
-                ag.add_activation(a);
+                if let Some(a) = made.remove(&o.at(1).as_i()) { ag.add_activation(a); }
                 obs.push(Sx::l(vec![focus_of(&ag)]));
             }
             1 => { nnext += 1; last = ag.get_next_activation(); if last.is_some() { nsome += 1; }
